@@ -80,6 +80,8 @@ class Ctx(object):
                            "seed": self.seed, "tier": self.tier}, f, indent=1, default=str)
             print("VIOLATION property=%s replay=%s" % (self.pid, path))
             print("  kind=%s %s" % (kind, json.dumps(detail, default=str)[:500]))
+        elif os.environ.get("VERIF_ALLVIOL"):
+            print("  more: kind=%s %s" % (kind, json.dumps(detail, default=str)[:500]))
         elif len(self.violations) == 6:
             print("  (further violations counted, not listed)")
         sys.stdout.flush()
